@@ -368,9 +368,10 @@ func (proj *Project) builtin_target(
 	//
 	// NOTE: this could also be extended through helper-function annotations.
 
-	l := &label.Label{
-		Package: m.label.Package,
-		Name:    name,
+	// Validate the name: a name that contains ':' or '/' yields a label that does not survive printing and parsing.
+	l, err := label.New("", "", m.label.Package, name)
+	if err != nil {
+		return nil, fmt.Errorf("%v: %w", fn.Name(), err)
 	}
 	f, err := proj.loadFunction(m, l, dependencies, sourcePaths, gens, function, always, docs)
 	if err != nil {
